@@ -369,7 +369,9 @@ fn run(input: &Value) -> CaseOut {
 
 //------------ generators ----------------------------------------------------------
 
-const SPECIAL: &[char] = &['"', '\\', '\n', '\r', '\t', '\0', '\u{1}', '\u{1f}', '\u{7f}', '\u{2028}', 'é', '😀', ',', ' ', '}', '/'];
+const SPECIAL: &[char] = &['"', '\\', '\n', '\r', '\t', '\0', '\u{1}', '\u{1f}', '\u{7f}', '\u{2028}', 'é', '😀', ',', ' ', '}', '/',
+    // C1 controls (char::is_control is true for them, they are multi-byte in UTF-8), NBSP, the ends of the planes
+    '\u{80}', '\u{85}', '\u{9f}', '\u{a0}', '\u{ffff}', '\u{10ffff}'];
 
 fn nasty(rng: &mut Rng, max: u64, linebreaks: bool) -> String {
     let n = rng.below(max + 1);
